@@ -76,17 +76,27 @@ func kindOf(v any) int {
 // (FromMap: nulls are the shared nilLeaf), or a clone of either
 func nodeVia(v any, route int) dom.Node {
 	var n dom.Node
-	switch route % 3 {
-	case 0:
+	switch route % 4 {
+	case 0, 3:
 		n = anyToNode(v)
 	default:
 		n = dom.Builder().FromMap(map[string]any{"w": v}).Child("w")
 	}
-	if route%3 == 2 {
+	if route%4 == 2 {
 		n = n.Clone()
+	}
+	if route%4 == 3 { // the read-only view of a builder is a node like any other
+		if cb, ok := n.(dom.ContainerBuilder); ok {
+			n = cb.Seal()
+		} else if lb, ok := n.(dom.ListBuilder); ok {
+			n = lb.Seal()
+		}
 	}
 	return n
 }
+
+// keys are arbitrary strings for Equals: dots, blanks and the empty key are ordinary member names (a trailing [n] is not: the builder reads it as a list index)
+var c05OddKeys = []string{"a", "a.b", "b", "", "x.y.z", "app.kubernetes.io/name", "a b", "a.b.c"}
 
 func c05Eq(a, b any) Case { return c05EqVia(a, b, 0, 0) }
 
@@ -107,7 +117,7 @@ func c05EqVia(a, b any, ra, rb int) Case {
 	if !aa {
 		fail = append(fail, "Equals is not reflexive")
 	}
-	return Case{Kind: "equals", Desc: map[string]any{"a": a, "b": b, "a.Equals(b)": ab, "b.Equals(a)": ba, "routes": []int{ra % 3, rb % 3}},
+	return Case{Kind: "equals", Desc: map[string]any{"a": a, "b": b, "a.Equals(b)": ab, "b.Equals(a)": ba, "routes": []int{ra % 4, rb % 4}},
 		Coq: "CEq " + gNode(a) + " " + gNode(b) + " " + gBool(ab), Fail: fail,
 		Nontrivial: !want && kindOf(a) == kindOf(b) && kindOf(a) != 0}
 }
@@ -137,14 +147,16 @@ func c05Nil(a any) Case {
 		Coq: "CEqNil " + gNode(a) + " " + gBool(obs), Fail: fail, Nontrivial: kindOf(a) != 0}
 }
 
-func c05Same(a, b any) Case {
-	na, nb := anyToNode(a), anyToNode(b)
+func c05Same(a, b any) Case { return c05SameVia(a, b, 0, 0) }
+
+func c05SameVia(a, b any, ra, rb int) Case {
+	na, nb := nodeVia(a, ra), nodeVia(b, rb)
 	obs := na.SameAs(nb)
 	var fail []string
 	if obs != (kindOf(a) == kindOf(b)) {
 		fail = append(fail, "SameAs is not kind equality")
 	}
-	return Case{Kind: "sameas", Desc: map[string]any{"a": a, "b": b, "SameAs": obs},
+	return Case{Kind: "sameas", Desc: map[string]any{"a": a, "b": b, "SameAs": obs, "routes": []int{ra % 4, rb % 4}},
 		Coq: "CSame " + gNode(a) + " " + gNode(b) + " " + gBool(obs), Fail: fail, Nontrivial: kindOf(a) != kindOf(b)}
 }
 
@@ -279,7 +291,7 @@ func mutateVal(r *rand.Rand, v any, o genOpts) any {
 func init() {
 	register(&Prop{
 		ID:   "C05",
-		Rule: "kinds: equals (exhaustive ordered pairs of all nodes with <= 2 (quick) / <= 3 (thorough) nodes over keys {a,b} and scalars {null,1,\"x\"}, then random pairs: equal / one-edit apart / unrelated), trans (triples), nil, sameas, clone (clone then 1-10 random in-place edits of the original or of the clone; the other side must not change). Non-trivial: same-kind unequal composite pair; clone of a document with > 2 nodes. Distinct by Gallina term.",
+		Rule: "kinds: equals (exhaustive ordered pairs of all nodes with <= 2 (quick) / <= 3 (thorough) nodes over keys {a,b} and scalars {null,1,\"x\"}, then random pairs: equal / one-edit apart / unrelated; every operand built along one of four routes: builder API, decoder (FromMap), Clone, sealed read-only view; a third of the random documents use odd member names: dots, slashes, blanks, the empty key), trans (triples), nil, sameas, clone (clone then 1-10 random in-place edits of the original or of the clone; the other side must not change). Non-trivial: same-kind unequal composite pair; clone of a document with > 2 nodes. Distinct by Gallina term.",
 		Corpus: func() []Case {
 			return []Case{
 				c05Eq(map[string]any{"a": 1}, map[string]any{"a": 1, "b": 2}), // pinned-tree defect
@@ -296,17 +308,20 @@ func init() {
 			all := enumValues(maxSz)
 			e := idx - 4
 			if e >= 0 && e < len(all)*len(all) {
-				return c05EqVia(all[e/len(all)], all[e%len(all)], idx, idx/3)
+				return c05EqVia(all[e/len(all)], all[e%len(all)], idx, idx/4)
 			}
 			o := defaultOpts()
+			if r.Intn(3) == 0 {
+				o.keys = c05OddKeys
+			}
 			a := genVal(r, o, 1, false)
 			switch r.Intn(10) {
 			case 0, 1:
-				return c05EqVia(a, mutateVal(r, a, o), r.Intn(3), r.Intn(3))
+				return c05EqVia(a, mutateVal(r, a, o), r.Intn(4), r.Intn(4))
 			case 2:
-				return c05EqVia(a, a, r.Intn(3), r.Intn(3))
+				return c05EqVia(a, a, r.Intn(4), r.Intn(4))
 			case 3:
-				return c05EqVia(a, genVal(r, o, 1, false), r.Intn(3), r.Intn(3))
+				return c05EqVia(a, genVal(r, o, 1, false), r.Intn(4), r.Intn(4))
 			case 4:
 				b := mutateVal(r, a, o)
 				if r.Intn(2) == 0 {
@@ -320,7 +335,7 @@ func init() {
 			case 5:
 				return c05Nil(a)
 			case 6:
-				return c05Same(a, genVal(r, o, 1, false))
+				return c05SameVia(a, genVal(r, o, 1, false), r.Intn(4), r.Intn(4))
 			default:
 				return c05Clone(r, genDoc(r, o), r.Intn(2) == 0)
 			}
